@@ -39,6 +39,7 @@ from common import err_kind
 warnings.simplefilter("ignore")      # MemoryLeakWarning of a thub whose copy is never read (call refused)
 from props import c01_t1
 from props import c01_flavours as fl
+from props import c01_exc as xc
 
 ID = "C01"
 RULE = ("expr: exhaustive cross 35 dunders x operand kinds x length pairs x call route (direct dunder / operator "
@@ -249,6 +250,8 @@ def dec_val(j):
             return j["T"]           # a text element
         if "Z" in j:
             return tuple(dec_val(x) for x in j["Z"])     # a tuple element (what zip / enumerate deliver)
+        if "B" in j:
+            return xc.Boom(j["B"])  # an element on which every operation raises this exception
         raise ValueError("unknown element encoding %r" % (j,))
     return j                        # int, bool, float, None
 
@@ -649,6 +652,10 @@ def _impl_once(c):
             return impl_optable(c)
         if c["entry"] == "bcast":
             return impl_bcast(c)
+        if c["entry"] == "exprE":
+            return xc.impl_expr(c)
+        if c["entry"] == "bcastE":
+            return xc.impl_bcast(c)
         raise ValueError(c["entry"])
     except _Timeout:
         return {"err": "TIMEOUT"}
@@ -670,6 +677,8 @@ def request(c):
         return {"entry": "expr", "prog": number(c["prog"], n=take_n(c))[0], "n": take_n(c)}
     if c["entry"] == "bcast":
         return request_bcast(c)
+    if c["entry"] in ("exprE", "bcastE"):
+        return xc.request(c)
     return {"entry": c["entry"]}
 
 
@@ -816,6 +825,10 @@ def compare(c, io, drv):
         return compare_optable(c, io, drv)
     if c["entry"] == "bcast":
         return compare_bcast(c, io, drv)
+    if c["entry"] == "exprE":
+        return xc.compare_expr(c, io, drv)
+    if c["entry"] == "bcastE":
+        return xc.compare_bcast(c, io, drv)
     return [("model", "unknown entry")]
 
 
@@ -824,6 +837,8 @@ def nontrivial(c, io):
         return bool(io.get("items"))
     if c["entry"] == "bcast":
         return bool(io.get("applied"))
+    if c["entry"] in ("exprE", "bcastE"):
+        return xc.nontrivial(c, io)
     return "err" not in io
 
 
@@ -1434,6 +1449,7 @@ def generate(rng, tier, scale=1):
         for d in UN_DUNDERS:
             cases.append(expr_case({"k": "un", "d": d, "s": stream_of(leaf("list", sym_vals("a", 2)))}, fam="sym", okind="-"))
     cases += generate_bcast(rng, tier, scale)
+    cases += xc.generate(rng, tier, scale)
     return cases
 
 
@@ -1509,9 +1525,15 @@ def tally(eng, c, io):
                 eng.count("length_relation", "self<other" if ls < lo else "self>other" if ls > lo else "equal" if ls else "both-empty")
     elif c["entry"] == "bcast":
         tally_bcast(eng, c, io)
+    elif c["entry"] in ("exprE", "bcastE"):
+        xc.tally(eng, c, io)
 
 
 def shrink(c):
+    if c["entry"] in ("exprE", "bcastE"):
+        for x in xc.shrink(c):
+            yield x
+        return
     if c["entry"] == "bcast":
         for x in shrink_bcast(c):
             yield x
@@ -1591,6 +1613,8 @@ def _shrink_node(nd):
 
 
 def neighbours(c):
+    if c["entry"] in ("exprE", "bcastE"):
+        return
     if c["entry"] == "bcast":
         for x in neighbours_bcast(c):
             yield x
@@ -1631,6 +1655,8 @@ def classify(c, io, drv):
         return "optable"
     if c["entry"] == "bcast":
         return classify_bcast(c, io, drv)
+    if c["entry"] in ("exprE", "bcastE"):
+        return xc.classify(c, io, drv)
     p = c["prog"]
     what = _op_class(p["d"]) if p["k"] in ("bin", "un") else p["k"] + (":" + p["l"].split(":")[0] if p["k"] == "meth" else "")
     osort = ""
@@ -1652,6 +1678,11 @@ def classify(c, io, drv):
 
 def regenerate(eng):
     return c01_t1.regenerate(common.REPO, common.LEAN)
+
+
+def extra_checks(eng):
+    for x in xc.extra_checks(eng):
+        yield x
 
 
 # ------------------------------------------------------------------------------------------------
